@@ -40,15 +40,15 @@ Inductive stmt :=
 | ConstIndex (len k:Z)                 (* local a: [len]integer; sink(a[k]) *)
 | ConstConv (t:nat) (v:Z)              (* local x: <type t> = v *)
 with block := BNil | BCons (id:nat) (s:stmt) (b:block)
-with cases := CNil | CCons (b:block) (cs:cases).
+with cases := CNil | CCons (cid v:nat) (b:block) (cs:cases).   (* case v then b, printed on line cid *)
 
 Inductive kind :=
 | KBreak | KContinue | KFall | KLabelDup | KGotoNoLabel | KGotoDefer
-| KUndeclared | KUpvalue | KConstAssign | KArity | KNotCallable | KRange | KIndex.
+| KUndeclared | KUpvalue | KConstAssign | KArity | KNotCallable | KRange | KIndex | KDupCase.
 
 Definition errs := list (nat * kind).
 
-Fixpoint ncases (cs:cases) : nat := match cs with CNil => O | CCons _ r => S (ncases r) end.
+Fixpoint ncases (cs:cases) : nat := match cs with CNil => O | CCons _ _ _ r => S (ncases r) end.
 Definition is_bnil (b:block) : bool := match b with BNil => true | _ => false end.
 
 (* ================================================================== A. break / continue / fallthrough *)
@@ -79,7 +79,7 @@ with rflow_block (inloop ftok:bool) (b:block) {struct b} : bool :=
 with rflow_cases (inloop els:bool) (cs:cases) {struct cs} : bool :=
   match cs with
   | CNil => true
-  | CCons b rest =>
+  | CCons _ _ b rest =>
     rflow_block inloop (match rest with CNil => els | _ => true end) b && rflow_cases inloop els rest
   end.
 
@@ -152,7 +152,7 @@ with aflow_block (ch:list fscope) (seen:bool) (b:block) {struct b} : errs :=
 with aflow_cases (ch:list fscope) (n:nat) (els:bool) (c:nat) (cs:cases) {struct cs} : errs :=
   match cs with
   | CNil => []
-  | CCons b rest =>
+  | CCons _ _ b rest =>
     aflow_block (mkf false false false (Some (recorded_case c, n, els)) :: ch) false b ++
     aflow_cases ch n els (S c) rest
   end.
@@ -214,7 +214,7 @@ with rname_block (fd:nat) (e:env) (b:block) {struct b} : bool :=
 with rname_cases (fd:nat) (e:env) (cs:cases) {struct cs} : bool :=
   match cs with
   | CNil => true
-  | CCons b rest => rname_block fd e b && rname_cases fd e rest
+  | CCons _ _ b rest => rname_block fd e b && rname_cases fd e rest
   end.
 
 (* analyzer: scope chain, each scope with its own symbol table and is_function flag *)
@@ -309,7 +309,7 @@ with aname_block (ch:list nscope) (b:block) {struct b} : errs :=
 with aname_cases (ch:list nscope) (cs:cases) {struct cs} : errs :=
   match cs with
   | CNil => []
-  | CCons b rest => aname_block (mkn false [] :: ch) b ++ aname_cases ch rest
+  | CCons _ _ b rest => aname_block (mkn false [] :: ch) b ++ aname_cases ch rest
   end.
 
 (* ================================================================== C. labels, goto, defer *)
@@ -403,7 +403,7 @@ with rlab_block (fs:list lframe) (sn:list marker) (isd:bool) (b:block) {struct b
 with rlab_cases (fs:list lframe) (cs:cases) {struct cs} : bool :=
   match cs with
   | CNil => true
-  | CCons b r => rlab_block fs [] false b && rlab_cases fs r
+  | CCons _ _ b r => rlab_block fs [] false b && rlab_cases fs r
   end.
 
 (* ---- analyzer.  Pass 1 sees the labels and has_defer flags set so far; a goto whose label is not
@@ -462,7 +462,7 @@ with alab_block (fs:list lframe) (sn:list marker) (isd:bool) (b:block) {struct b
 with alab_cases (fs:list lframe) (cs:cases) {struct cs} : errs :=
   match cs with
   | CNil => []
-  | CCons b r => alab_block fs [] false b ++ alab_cases fs r
+  | CCons _ _ b r => alab_block fs [] false b ++ alab_cases fs r
   end.
 
 (* ================================================================== D. constants *)
@@ -491,7 +491,7 @@ Fixpoint rconst_stmt (s:stmt) {struct s} : bool :=
 with rconst_block (b:block) {struct b} : bool :=
   match b with BNil => true | BCons _ s r => rconst_stmt s && rconst_block r end
 with rconst_cases (cs:cases) {struct cs} : bool :=
-  match cs with CNil => true | CCons b r => rconst_block b && rconst_cases r end.
+  match cs with CNil => true | CCons _ _ b r => rconst_block b && rconst_cases r end.
 
 Fixpoint aconst_stmt (id:nat) (s:stmt) {struct s} : errs :=
   match s with
@@ -511,19 +511,60 @@ Fixpoint aconst_stmt (id:nat) (s:stmt) {struct s} : errs :=
 with aconst_block (b:block) {struct b} : errs :=
   match b with BNil => [] | BCons id s r => aconst_stmt id s ++ aconst_block r end
 with aconst_cases (cs:cases) {struct cs} : errs :=
-  match cs with CNil => [] | CCons b r => aconst_block b ++ aconst_cases r end.
+  match cs with CNil => [] | CCons _ _ b r => aconst_block b ++ aconst_cases r end.
+
+(* ================================================================== E. switch case values *)
+Fixpoint case_values (cs:cases) : list nat :=
+  match cs with CNil => [] | CCons _ v _ r => v :: case_values r end.
+
+(* rule: the case values of one switch are pairwise different *)
+Fixpoint nodupb (l:list nat) : bool :=
+  match l with [] => true | x :: r => negb (existsb (Nat.eqb x) r) && nodupb r end.
+
+Fixpoint rsw_stmt (s:stmt) {struct s} : bool :=
+  match s with
+  | Switch cs _ d => nodupb (case_values cs) && rsw_cases cs && rsw_block d
+  | Func _ _ b | Do b | While b | Repeat b | For b | Defer b => rsw_block b
+  | If t e => rsw_block t && rsw_block e
+  | _ => true
+  end
+with rsw_block (b:block) {struct b} : bool :=
+  match b with BNil => true | BCons _ s r => rsw_stmt s && rsw_block r end
+with rsw_cases (cs:cases) {struct cs} : bool :=
+  match cs with CNil => true | CCons _ _ b r => rsw_block b && rsw_cases r end.
+
+(* analyzer (visitors.Switch): the table `casevalues` of the values seen so far in this switch *)
+Fixpoint dup_errs (seen:list nat) (cs:cases) : errs :=
+  match cs with
+  | CNil => []
+  | CCons cid v _ r => (if existsb (Nat.eqb v) seen then [(cid, KDupCase)] else []) ++ dup_errs (v :: seen) r
+  end.
+
+Fixpoint asw_stmt (s:stmt) {struct s} : errs :=
+  match s with
+  | Switch cs _ d => dup_errs [] cs ++ asw_cases cs ++ asw_block d
+  | Func _ _ b | Do b | While b | Repeat b | For b | Defer b => asw_block b
+  | If t e => asw_block t ++ asw_block e
+  | _ => []
+  end
+with asw_block (b:block) {struct b} : errs :=
+  match b with BNil => [] | BCons _ s r => asw_stmt s ++ asw_block r end
+with asw_cases (cs:cases) {struct cs} : errs :=
+  match cs with CNil => [] | CCons _ _ b r => asw_block b ++ asw_cases r end.
 
 (* ================================================================== whole program = body of a function *)
 Definition rule_flow (p:block) : bool := rflow_block false false p.
 Definition rule_names (p:block) : bool := rname_block 1 [] p.
 Definition rule_labels (p:block) : bool := rlab_block [] [] false p.
 Definition rule_consts (p:block) : bool := rconst_block p.
-Definition rule_ok (p:block) : bool := rule_flow p && rule_names p && rule_labels p && rule_consts p.
+Definition rule_switch (p:block) : bool := rsw_block p.
+Definition rule_ok (p:block) : bool := rule_flow p && rule_names p && rule_labels p && rule_consts p && rule_switch p.
 
 Definition off_flow (p:block) : errs := aflow_block [plain_scope; func_scope] false p.
 Definition off_names (p:block) : errs := aname_block [mkn false []; mkn true []] p.
 Definition off_labels (p:block) : errs := alab_block [] [] false p.
 Definition off_consts (p:block) : errs := aconst_block p.
-Definition offenders (p:block) : errs := off_flow p ++ off_names p ++ off_labels p ++ off_consts p.
+Definition off_switch (p:block) : errs := asw_block p.
+Definition offenders (p:block) : errs := off_flow p ++ off_names p ++ off_labels p ++ off_consts p ++ off_switch p.
 
 Definition analyzer_ok (p:block) : bool := match offenders p with [] => true | _ => false end.
